@@ -1265,6 +1265,77 @@ def judge_shape(spec, rec):
 
 # --------------------------------------------------------------------------------------------------------
 
+# --------------------------------------------------------------------------------------------------------
+# extreme rescalings ("under any rescaling of v"): members and non-members scaled across the whole float range,
+# under percentage tolerances (there "nonzero" means exactly that: the tolerance around the zero vector is 0 % of 0)
+
+X_SCALES = [1e-200, 1e-170, -1e-163, 1e-100, 1e100, 1e154, -1e170, 1e200, [1e-180, 1e-180], [0.0, 1e175]]
+X_TOLS = ['0.01%', '1%', '10%']
+X_EIGEN = [('[[2,0],[0,3]]', '2', [1, 0], [1, 2]), ('[[2,1],[1,2]]', '3', [1, 1], [1, 0]),
+           ('[[2,1],[1,2]]', '1', [1, -1], [1, 1]), ('[[0,-1],[1,0]]', 'i', [1, -1j], [1, 1j]),
+           ('[[1,1,0],[0,1,0],[0,0,5]]', '5', [0, 0, 1], [0, 1, 0])]
+X_SPAN = [(['[1,1,0]', '[0,1,1]'], [1, 2, 1], [1, 0, 0]), (['[1,i]'], [1j, -1], [1, 1]),
+          (['[1,0,0]', '[2,0,0]'], [3, 0, 0], [0, 1, 0])]
+X_PHASE = [([1, 2], 1j), ([1, -1j, 2], -1), ([3, 4], cmath.exp(0.7j))]
+
+
+def items_extreme(tier):
+    for tol in X_TOLS:
+        for sc in X_SCALES:
+            for i in range(len(X_EIGEN)):
+                for member in (True, False):
+                    yield {'fam': 'eigen', 'i': i, 'scale': sc, 'tol': tol, 'member': member}
+            for i in range(len(X_SPAN)):
+                for member in (True, False):
+                    yield {'fam': 'span', 'i': i, 'scale': sc, 'tol': tol, 'member': member}
+            for i in range(len(X_PHASE)):
+                for variant in ('phase-of-scaled-target', 'scaled-target-times-1.5', 'unit-target-scaled-student'):
+                    yield {'fam': 'phase', 'i': i, 'scale': sc, 'tol': tol, 'variant': variant}
+
+
+def judge_extreme(spec, rec):
+    sc = num(spec['scale'])
+    tol = spec['tol']
+
+    def scaled(v, f=1):
+        return [complex(x) * sc * f for x in v]
+    if spec['fam'] == 'eigen':
+        M, lam, v, w = X_EIGEN[spec['i']]
+        g = MatrixGrader(answers={'comparer': eigenvector_comparer, 'comparer_params': [M, lam]}, max_array_dim=2,
+                         tolerance=tol)
+        member = spec['member']
+        s = scaled(v if member else w)
+        why = 'M=%s lambda=%s tol=%r' % (M, lam, tol)
+    elif spec['fam'] == 'span':
+        cols, v, w = X_SPAN[spec['i']]
+        g = MatrixGrader(answers={'comparer': vector_span_comparer, 'comparer_params': cols}, tolerance=tol)
+        member = spec['member']
+        s = scaled(v if member else w)
+        why = 'vectors %s tol=%r' % (cols, tol)
+    else:
+        t, ph = X_PHASE[spec['i']]
+        variant = spec['variant']
+        if variant == 'unit-target-scaled-student':
+            target, s, member = [complex(x) for x in t], scaled(t, ph), False       # |scale| is never 1
+        elif variant == 'scaled-target-times-1.5':
+            target, s, member = scaled(t), scaled(t, 1.5 * ph), False
+        else:
+            target, s, member = scaled(t), scaled(t, ph), True
+        g = MatrixGrader(answers={'comparer': vector_phase_comparer, 'comparer_params': [vlit(realify(np.array(target)))]},
+                         tolerance=tol)
+        why = 'target %s tol=%r (%s)' % (vlit(realify(np.array(target))), tol, variant)
+    student = vlit(realify(np.array(s)))
+    out = run(g, student, 0, rec)
+    why += ' student %s' % student
+    rec.cls('extreme/%s/%s' % (spec['fam'], 'member' if member else 'nonmember'))
+    rec.nontrivial()
+    if member:
+        demand_accept('extreme-scale/' + spec['fam'], out, why)
+    else:
+        demand_reject('extreme-scale/' + spec['fam'], out, why)
+    return {'student': student, 'got': short(out)}
+
+
 PARTS = [
     Part('congruence', 'hyp', muting(judge_congruence), strategy=lambda tier: congruence_specs(),
          budget={'quick': 700, 'thorough': 14000}),
@@ -1280,6 +1351,7 @@ PARTS = [
          budget={'quick': 800, 'thorough': 16000}),
     Part('linear', 'hyp', muting(judge_linear), strategy=lambda tier: linear_specs(),
          budget={'quick': 800, 'thorough': 16000}),
+    Part('extreme-scale', 'enum', muting(judge_extreme), items=items_extreme, exhaustive=True),
     Part('linear-grid', 'enum', muting(judge_linear_grid), items=linear_grid, exhaustive=True),
     Part('shape', 'enum', muting(judge_shape), items=shape_items, exhaustive=True),
 ]
